@@ -110,8 +110,40 @@ def strategy(tier):
     )
     # a leading marker op switches the case to sparse look-ups (see run_case)
     sparse = st.tuples(st.just("sparse"), st.tuples(st.just("lit"), st.just(b"\x00")), st.just(b""), st.just(0))
-    body = st.lists(op, min_size=3, max_size=20 if tier == "quick" else 60)
+    unit = st.one_of(*([op.map(lambda o: [o])] * 11 + [comb_fragments()]))
+    body = st.lists(unit, min_size=3, max_size=20 if tier == "quick" else 60).map(
+        lambda frags: [o for f in frags for o in f])
     return st.one_of(body, body, st.builds(lambda m, b: [m] + b, sparse, body))
+
+
+def _comb(prefix, target, filler, nbytes, order, syn):
+    """Keys prefix+T and, for every bit position i of T, a key that leaves T's path at bit i:
+    the look-up of `prefix` then ends on a spine made of branch nodes only, down to a leaf."""
+    nbits = 8 * nbytes
+    t = int.from_bytes(target, "big") & ((1 << nbits) - 1)
+    f = int.from_bytes(filler, "big") & ((1 << nbits) - 1)
+    tails = [t]
+    for i in range(nbits):
+        low = nbits - 1 - i  # number of bits below position i
+        tails.append((((t >> low) ^ 1) << low) | (f & ((1 << low) - 1)))
+    tails = [tails[j % len(tails)] for j in order] + tails  # drawn order first, then the rest
+    seen, out = set(), []
+    for x in tails:
+        if x not in seen:
+            seen.add(x)
+            out.append(("set", ("lit", prefix + x.to_bytes(nbytes, "big")), b"c%d" % (x & 0xFF), syn))
+    return out
+
+
+def comb_fragments():
+    target = st.one_of(st.sampled_from([b"\xff\xff", b"\x00\x00", b"\xff\x00", b"\x00\xff"]),
+                       st.binary(min_size=2, max_size=2))
+    return st.builds(
+        _comb,
+        st.sampled_from([b"", b"\x12", b"\x12\x34", b"\x00", b"\xff", b"\x80\x00"]),
+        target, st.binary(min_size=2, max_size=2), st.sampled_from([1, 1, 1, 2]),
+        st.lists(st.integers(0, 16), max_size=4), st.integers(0, 1),
+    )
 
 
 def exhaustive(tier):
@@ -247,6 +279,24 @@ def _run_deep(case, info):
     return info
 
 
+def _has_branch_spine(model):
+    """Some stored key K = P + one byte hangs below 8 consecutive branch nodes (a look-up of
+    the byte prefix P ends at the top of a spine without any kv node down to a leaf)."""
+    bitkeys = ["".join(map(str, bits_of(k))) for k in model]
+    for kb in bitkeys:
+        if len(kb) < 8:
+            continue
+        ok = True
+        for i in range(len(kb) - 8, len(kb)):
+            other = kb[:i] + ("1" if kb[i] == "0" else "0")
+            if not any(o.startswith(other) for o in bitkeys):
+                ok = False
+                break
+        if ok:
+            return True
+    return False
+
+
 def run_case(case):
     info = Info()
     if case and case[0][0] == "deepcomb":
@@ -362,5 +412,6 @@ def run_case(case):
     expect_eq("root-is-canonical", bytes(t_side.root_hash), RefBin(side_model).root_hash, "root of the second trie")
     if not model:
         expect_eq("empty-is-blank-hash", bytes(t.root_hash), BLANK, "root of the empty trie")
+    info.label("branch-only-spine-below-a-prefix", _has_branch_spine(model))
     info.nontrivial = refusals >= 1 and compress >= 1 and splits >= 1
     return info
